@@ -320,31 +320,40 @@ def add_worm_gear_mating(
             f"pressure angles, so they cannot mate together."
         )
 
-    master.drives = slave
-    master.mating_role = MatingMaster
-    slave.driven_by = master
-    slave.mating_role = MatingSlave
     if isinstance(master, WormGear) and isinstance(slave, WormWheel):
-        slave.master_gear_ratio = slave.n_teeth/master.n_starts
+        worm_gear = master
+        gear_ratio = slave.n_teeth/master.n_starts
         efficiency = \
             (master.pressure_angle.cos() -
                 friction_coefficient*master.helix_angle.tan()) / \
             (master.pressure_angle.cos() +
                 friction_coefficient/master.helix_angle.tan())
-        master.self_locking = \
-            friction_coefficient > master.pressure_angle.cos() * \
-            master.helix_angle.tan()
     else:
-        slave.master_gear_ratio = slave.n_starts/master.n_teeth
+        worm_gear = slave
+        gear_ratio = slave.n_starts/master.n_teeth
         efficiency = \
             (master.pressure_angle.cos() -
                 friction_coefficient/master.helix_angle.tan()) / \
             (master.pressure_angle.cos() +
                 friction_coefficient*master.helix_angle.tan())
-        slave.self_locking = \
-            friction_coefficient > slave.pressure_angle.cos() * \
-            slave.helix_angle.tan()
+    self_locking = \
+        friction_coefficient > worm_gear.pressure_angle.cos() * \
+        worm_gear.helix_angle.tan()
+
+    if efficiency > 1 or efficiency < 0:
+        raise ValueError(
+            f"Gears {master.name!r} and {slave.name!r} cannot mate together "
+            f"with this 'friction_coefficient', because the resulting mating "
+            f"efficiency {efficiency} is not within 0 and 1."
+        )
+
+    master.drives = slave
+    master.mating_role = MatingMaster
+    slave.driven_by = master
+    slave.mating_role = MatingSlave
+    slave.master_gear_ratio = gear_ratio
     slave.master_gear_efficiency = efficiency
+    worm_gear.self_locking = self_locking
 
 
 def add_fixed_joint(
